@@ -348,7 +348,7 @@ pub fn run(args: &Args, rep: &mut Report) {
                 for op in ops {
                     for text in [format!("{} {} {}", x, op, w), format!("{} {} {}", w, op, x)] {
                         k += 1;
-                        if args.mine(k) && args.keep(k / args.nshards.max(1), 10) {
+                        if args.mine(k) {
                             cases.push(("containment".into(), text, ENTRIES[k % ENTRIES.len()]));
                             rep.count("family_containment", 1);
                         }
@@ -356,7 +356,7 @@ pub fn run(args: &Args, rep: &mut Report) {
                 }
                 for text in [format!("{}[{}]", x, w), format!("{}[{}]", w, x), format!("indexOf({}, {})", x, w), format!("toString({}) + {}", x, w), format!("length({}) + {}", w, x)] {
                     k += 1;
-                    if args.mine(k) && args.keep(k / args.nshards.max(1), 10) {
+                    if args.mine(k) {
                         cases.push(("containment".into(), text, ENTRIES[k % ENTRIES.len()]));
                         rep.count("family_containment", 1);
                     }
